@@ -451,6 +451,121 @@ def deferred_repeat(d, loop, k):
     d.reach()
 
 
+# ------------------------------------------------------------------ installation just before a slot; times less than 1 ms apart
+@meta(bounds="a recurring task of interval 125 ms * m (m in 1..4, offset 0) installed - or, reinstall=True, installed again - "
+             "shortly BEFORE a slot: at slot - delta with delta from {100 ms, 10 ms, 0.5 ms, 50 us, 10 us} (chosen per path), slot "
+             "index symbolic; it must fire at that very slot (the first one strictly after the installation) and at the "
+             "next one",
+      outside="installation closer than 10 us before a slot (RecurringTask.install_task itself skips a slot less than 1 us "
+              "ahead; between 1 and 10 us plain binary64 arithmetic decides)",
+      stubs=STUBS, assumes=["concrete deltas: the instants are not on the 1/8 s grid, plain float arithmetic on concrete values"])
+def recurring_near_slot(d, reinstall=False):
+    w = World()
+    log = []
+    m = d.pick([1, 2, 3, 4], 'interval/125ms')
+    q = d.pick([1, 2, 5], 'slot_index')
+    delta = d.pick([0.1, 0.01, 0.0005, 0.00005, 0.00001], 'ahead_of_slot')
+    slot = q * m / 8.0
+    tick = _Tick(log, w)
+    if reinstall:
+        w.clock = slot - m / 8.0 / 2
+        tick.install_task(interval=125 * m)
+    w.clock = slot - delta
+    tick.install_task(interval=125 * m)
+    w.run(until=slot + m / 8.0 + 0.01, max_loops=40)
+    want = [slot, slot + m / 8.0]
+    if len(log) != 2 or abs(log[0] - want[0]) > TOL or abs(log[1] - want[1]) > TOL:
+        raise Violation("recurring-near-slot", installed_ahead=delta, interval=m / 8.0, fired=list(log), want=want,
+                        reinstall=reinstall)
+    d.reach()
+
+
+@meta(bounds="two or three one-shot tasks whose due times lie 0, 0.4 or 0.8 ms apart (symbolic choice per task, around a base "
+             "instant), installed in symbolic order; the real core.run on the virtual clock: every task fires exactly once, "
+             "the scheduler's clock at that moment is not before the task's due time, and the firing order follows the "
+             "due times (installation order among equals)",
+      outside="more than three tasks; gaps other than multiples of 0.4 ms",
+      stubs=STUBS, assumes=["concrete sub-millisecond offsets (plain float arithmetic on concrete values)"])
+def sched_close(d, n):
+    w = World()
+    log = []
+    base = 2.0
+    tasks = []
+    for i in range(n):
+        off = d.pick([0.0, 0.0004, 0.0008], 'offset%d' % i)
+        t = _Probe(log, w)
+        t.label = i
+        t.install_task(when=base + off)
+        tasks.append((i, base + off))
+    w.run(until=base + 1.0, max_loops=40)
+    if sorted(x[0] for x in log) != list(range(n)):
+        raise Violation("close-times-fired", fired=[x[0] for x in log], n=n)
+    for (i, at) in log:
+        due = tasks[i][1]
+        if at < due - 1e-9:
+            raise Violation("fired-early", task=i, due=due, clock=at, early_by=due - at)
+    order = [x[0] for x in log]
+    want = [i for (i, due) in sorted(tasks, key=lambda x: (x[1], x[0]))]
+    if order != want:
+        raise Violation("close-times-order", fired=order, want=want, due=[x[1] for x in tasks])
+    d.reach()
+
+
+class _Callable(object):
+    def __init__(self, body):
+        self.body = body
+
+    def __call__(self, *a):
+        return self.body(*a)
+
+
+@meta(bounds="a batch of three deferred calls, each symbolically a plain function, a lambda, a bound method, a functools.partial "
+             "or an instance with __call__, each with a symbolic `raises` flag; loop = core.run on the virtual clock or "
+             "core.run_once (called again after an exception, as tests/time_machine.py does): every member is called exactly "
+             "once, in submission order, whatever kind of callable raised",
+      outside="batches longer than three; callables that defer further work (see `deferred`)",
+      stubs=STUBS, assumes=[])
+def deferred_kinds(d, loop):
+    import functools
+    w = World()
+    called = []
+
+    def body(i, raises):
+        called.append(i)
+        if raises:
+            raise _Boom(i)
+
+    class _O(object):
+        def meth(self, i, raises):
+            return body(i, raises)
+    o = _O()
+    kinds = []
+    for i in range(3):
+        kind = d.pick(["function", "lambda", "method", "partial", "instance"], 'kind%d' % i)
+        raises = d.bool('raises%d' % i)
+        kinds.append((kind, bool(raises)))
+        if kind == "function":
+            def fn(i=i, raises=raises):
+                return body(i, raises)
+            core.deferred(fn)
+        elif kind == "lambda":
+            core.deferred(lambda i=i, raises=raises: body(i, raises))
+        elif kind == "method":
+            core.deferred(o.meth, i, raises)
+        elif kind == "partial":
+            core.deferred(functools.partial(body, i, raises))
+        else:
+            core.deferred(_Callable(body), i, raises)
+    if loop == "run":
+        w.run(until=w.clock, max_loops=24)
+    else:
+        for _ in range(8):
+            core.run_once()
+    if called != [0, 1, 2]:
+        raise Violation("deferred-kinds", loop=loop, kinds=kinds, called=list(called))
+    d.reach()
+
+
 def _prefixes(k):
     out = [[]]
     for _ in range(k):
@@ -509,14 +624,21 @@ def instances(tier):
                                 budget=900, path_timeout=300))
     out.append(Inst(recurring, dict(mlo=2, mhi=4 if q else 8, jmax=8, hmax=8, fmax=4, drive="loop", reinstall=True),
                     budget=90 if q else 600, path_timeout=120, label="reinstall"))
+    for re_ in (False, True):
+        out.append(Inst(recurring_near_slot, dict(reinstall=re_), budget=90, label="reinstall" if re_ else "install"))
+    out.append(Inst(sched_close, dict(n=2 if q else 3), budget=90 if q else 300))
+    if q:
+        out.append(Inst(sched_close, dict(n=3), budget=120))
     for loop in ("run", "run_once"):
         if q:
             out.append(Inst(deferred, dict(loop=loop, nmin=0, nmax=3, tmax=2), budget=90))
             out.append(Inst(deferred_repeat, dict(loop=loop, k=3), budget=90))
+            out.append(Inst(deferred_kinds, dict(loop=loop), budget=90))
             out.append(Inst(deferred, dict(loop=loop, nmin=4, nmax=4, tmax=2), budget=120))
         else:
             out.append(Inst(deferred, dict(loop=loop, nmin=0, nmax=3, tmax=3), budget=600))
             out.append(Inst(deferred_repeat, dict(loop=loop, k=4), budget=600))
+            out.append(Inst(deferred_kinds, dict(loop=loop), budget=300))
             out.append(Inst(deferred, dict(loop=loop, nmin=4, nmax=4, tmax=2), budget=600))
             out.append(Inst(deferred, dict(loop=loop, nmin=5, nmax=5, tmax=2), budget=900))
             for r0 in (False, True):
